@@ -84,6 +84,12 @@ CLAIMED["C08"] = ("Xorb",
     "misaligned parsing is abstracted in the model (tested by the exhaustive replay); allocation observed as child death under RLIMIT_AS = 512 MiB, panics in debug builds; the streaming validator accepts the empty xorb, agreement claimed for non-empty v1 objects.",
     "5.3, 6 C08")
 
+CLAIMED["C17"] = ("Reconstruct",
+    "TLC model checking of Reconstruct.tla (reconstruction plans, sequential and parallel writers, term fetch with cache hit / download + cache fill + trim, download flights; negative controls for offset, remaining, file-offset, trim and URL-only flight keys); generated and random plans (terms, fetch coverings, byte ranges, both URL flavours) executed by a real RemoteClient against a loopback range server serving real serialized xorbs, sequential / parallel writer x no / cold / warm cache; hook and harness events validated against Trace_Reconstruct.tla",
+    "Exhaustive model checking of both writers over all files of <=3 terms on <=2 xorbs, all fetch coverings, all byte ranges and completion orders (output = expected slice, reported length = bytes written, writers and cache modes agree) plus conformance: for every executed plan the recorded per-term trims, file offsets, fetched ranges and the final output (projected to interned pieces of the pairwise distinct chunk data) must be the model's, for whole-file, single-byte, mid-term and random ranges, plans of up to hundreds of terms, one URL per fetch range and one URL per xorb shared by several ranges.",
+    "HTTP is a loopback std-only range server; chunk data pairwise distinct (interned); LZ4 / blake3 uninterpreted; completion orders of the parallel writer are whatever the runtime produces (the model covers all).",
+    "5.6, 6 C17")
+
 PENDING_REASON = "check not built yet in this round (planned in DESIGN.md section 6); no claim is made"
 
 checks = []
@@ -109,7 +115,7 @@ m = {
     "hooks": {
         "guard": "xet_verif",
         "enable": "RUSTFLAGS --cfg xet_verif (set in /verif/harness/.cargo/config.toml; the harness has path dependencies on /repo's crates)",
-        "baseline_off_cmd": "cd /repo && cargo test --workspace --no-fail-fast --offline",
+        "baseline_off_cmd": "cd /repo && (cargo nextest run --workspace --no-fail-fast --tool-config-file pb:/w/lib/nextest.toml --profile pb --test-threads 8 --offline || cargo test --workspace --no-fail-fast --offline)",
         "source_commits": [l.strip() for l in open(os.path.join(VERIF, "hooks_commits.txt")) if l.strip()],
         "add_only": True,
     },
